@@ -724,6 +724,103 @@ def upload_fuzz(ctx, env, watch):
                 env.models.db.session.commit()
 
 
+def body_fuzz(ctx, workdir):
+    """every state-changing route (POST / PUT / DELETE the router accepts), as an AUTHORISED administrator holding the right
+    CSRF tokens, with bodies a client could send by mistake: fields missing, null, of the wrong type, very long, names and
+    addresses another row already has, non-object JSON, empty bodies.  Below 500, always."""
+    from ..appenv import AppEnv
+    from . import c15
+    import logging
+    env = AppEnv(os.path.join(workdir, 'bodies'), streams=('bbb',), copy_media=True)
+    logging.disable(logging.CRITICAL)
+    env.add_mps('mps1', [dict(pid='p1', stream='bbb', start_s=0, duration_s=20), dict(pid='p2', stream='bbb', start_s=8, duration_s=16)])
+    watch = Watch(env.app)
+    rng = ctx.rng
+    actor = c15.Actor(env, 'admin')
+    with env.app.app_context():
+        m = env.models
+        stream = m.Stream.get(directory='bbb')
+        mf = m.MediaFile.get(name='bbb_v7')
+        keys = list(m.Key.all())
+        ids = {'spk': stream.pk, 'stream': 'bbb', 'mfid': mf.pk, 'filename': 'bbb_v7', 'kpk': keys[0].pk if keys else 1,
+               'mps_name': 'mps1', 'ppk': 1, 'segnum': 1, 'publish': 1700000000, 'username': 'user',
+               'upk': m.User.get(username='user').pk, 'self_pk': actor.user_pk}
+        mps = m.MultiPeriodStream.get(name='mps1')
+        ids['mps_pk'] = mps.pk if mps else None
+    rules = [r for r in env.app.url_map.iter_rules() if r.endpoint != 'static']
+    odd = [None, 7, -1, 2**70, 1.5, True, [], ['a'], {}, {'a': 1}, '', ' ', 'x' * 5000, 'media', 'admin', 'bbb', 'mps1', '../../etc/passwd',
+           'a"b<c>&', '\u0000', 'PT-5S', 'not-a-date', '0123456789012345678901234567890a']
+    sites = collections.OrderedDict()
+    plan = []
+    for method in ('POST', 'PUT', 'DELETE'):
+        for rule in rules:
+            if method in (rule.methods or ()):
+                plan.append((method, rule))
+    per_rule = 10 if ctx.quick() else 120
+    for method, rule in plan:
+        url = c15.url_for_rule(rule, ids)
+        templates = [b for k, b, sp in c15.payloads(rule.endpoint, ids, {}) if k == 'json'] or [{}]
+        forms = [b for k, b, sp in c15.payloads(rule.endpoint, ids, {}) if k == 'form'] or [{}]
+        for trial in range(per_rule):
+            actor.refresh_tokens()
+            toks = dict(actor.csrf)
+            try:
+                toks.update(actor.harvest(url))
+            except Exception:  # noqa
+                pass
+            tok = rng.choice(list(toks.values())) if toks and rng.random() < 0.9 else None
+            shape = rng.choice(['json', 'json', 'json', 'form', 'rawjson', 'empty'])
+            kw = {'headers': actor.headers()}
+            if shape == 'json':
+                body = dict(rng.choice(templates))
+                for _ in range(rng.choice([0, 1, 1, 2, 3])):
+                    if body and rng.random() < 0.4:
+                        body.pop(rng.choice(sorted(body)), None)
+                    elif body:
+                        body[rng.choice(sorted(body))] = rng.choice(odd)
+                    else:
+                        body[rng.choice(['name', 'title', 'username', 'email', 'pk', 'periods', 'options'])] = rng.choice(odd)
+                if tok is not None:
+                    body['csrf_token'] = tok
+                kw['json'] = body
+                shown = body
+            elif shape == 'form':
+                body = {k: v for k, v in dict(rng.choice(forms)).items()}
+                for _ in range(rng.choice([0, 1, 2])):
+                    if body:
+                        body[rng.choice(sorted(body))] = str(rng.choice(odd))
+                if tok is not None:
+                    body['csrf_token'] = tok
+                kw['data'] = body
+                shown = body
+            elif shape == 'rawjson':
+                shown = rng.choice(['null', '[]', '7', '"text"', '{"a":', '[1,2', '{"csrf_token": null}', 'true'])
+                kw['data'] = shown
+                kw['content_type'] = 'application/json'
+            else:
+                shown = ''
+            qs = ('?csrf_token=' + urllib.parse.quote(tok)) if (tok and method == 'DELETE') else ''
+            st, site, r = watch.get(actor.c, url + qs, method=method.lower(), **kw)
+            ctx.count('http:body-fuzz')
+            ctx.dist('body-fuzz-status:%s' % (st if not isinstance(st, int) else '%dxx' % (st // 100)))
+            if isinstance(st, int) and st >= 500 and site and 'async_to_sync' in site:
+                # an async view (/media/inspect): Flask's async support (asgiref) is not installed in this sandbox; nothing of
+                # dash-live ran
+                ctx.dist('environment:async-view-unavailable')
+                continue
+            if st == 'HANG' or st == 'RAISE' or (isinstance(st, int) and st >= 500):
+                key = 'body:%s %s:%s' % (method, rule.rule, site or st)
+                sites.setdefault(key, []).append((method, url + qs, shape, shown, st))
+            elif isinstance(st, int) and st < 500:
+                ctx.nontriv((method, rule.rule, shape, str(shown)[:60]))
+    for key, hits in sorted(sites.items()):
+        method, url, shape, shown, st = hits[0]
+        ctx.violation('%s %s (administrator, %s body %s) answers %s: %s [%d requests reach this site]'
+                      % (method, url, shape, str(shown)[:200], st, key.split(':', 2)[-1], len(hits)),
+                      {'method': method, 'url': url, 'shape': shape, 'body': shown if isinstance(shown, (dict, str)) else str(shown)}, key=key)
+    env.close()
+
+
 def run(ctx):
     import logging
     logging.disable(logging.CRITICAL)
@@ -748,6 +845,7 @@ def run(ctx):
     mp4_fuzz(ctx, watch)
     upload_fuzz(ctx, env, watch)
     env.close()
+    body_fuzz(ctx, ctx.workdir)
 
 
 def replay(ctx, payload):
